@@ -557,6 +557,11 @@ func (p *Proxy) handle(ctx *Context, conn net.Conn, brw *bufio.ReadWriter) error
 	defer unlink(req)
 
 	if tsconn, ok := conn.(*trafficshape.Conn); ok {
+		// What the previous response on this connection was shaped by must not apply to what is
+		// written for this request: the reply to a CONNECT and the bytes of its tunnel never
+		// reach the place where the context is set for a matching response.
+		tsconn.Context = &trafficshape.Context{}
+
 		wrconn := tsconn.GetWrappedConn()
 		if sconn, ok := wrconn.(*tls.Conn); ok {
 			session.MarkSecure()
